@@ -58,6 +58,15 @@ def check(repo: Repo, rep: Report) -> None:
     rep.rule("K3-synchronous", "no scheduler in element-wise operators", floor=18)
     rep.rule("K4-composites", "composite operators are built from their documented components", floor=4)
     rep.rule("G1-state-before-callout", "gate state (counters / flags deciding an emission) is updated before the downstream on_next it gates", floor=4)
+    rep.rule("D2-default-equality", "the default comparer is the elements' own == and nothing else", floor=1)
+    dc = repo.fn("reactivex/internal/basic.py", "default_comparer")
+    cmps = [n for n in dc.all_nodes() if isinstance(n, ast.Compare)]
+    prm = set(dc.params)
+    ok = len(cmps) == 1 and len(cmps[0].ops) == 1 and isinstance(cmps[0].ops[0], ast.Eq) and {u(cmps[0].left), u(cmps[0].comparators[0])} == prm \
+        and not [n for n in dc.all_nodes() if isinstance(n, (ast.BoolOp, ast.IfExp, ast.If))]
+    rep.ob("D2-default-equality", dc, f"default_comparer: `{' ; '.join(short(n) for n in cmps) or '?'}`", ok,
+           "the default comparer is not exactly `x == y`: distinct / distinct_until_changed / contains / sequence_equal disagree with list "
+           "semantics for elements whose == is not implied by the extra test (an identity shortcut drops a recurring NaN object)")
     rep.rule("D1-key-iff-emitted", "distinct_until_changed: the remembered key is replaced exactly when an element is emitted", floor=1)
     for key in OPS:
         got = TC.check_operator(repo, rep, "K1-signature", key,
